@@ -10,7 +10,7 @@ CHECKS = {
     "C01": ("Networks of 2..9 real nodes (only real nodes) over hours and days of virtual time: generated ids, families, announce ports, latency tables (round trips < 1.5 s, plus a slow-pairs regime beyond the query timeout), structured renewal/expiry schedules, announcer/searcher schedules with overlaps and offsets on both sides of 24 h; must-find / must-not-find windows on the search streams.",
             "announce_peer datagrams need up to 1 s after the announcing search ends (asserted from 1.1 s); latencies below 1 s with round trips under the 1.5 s query timeout; long histories to ~6 days; quick tier uses <= 4 nodes for day-long cases.",
             "property-based testing (proptest) of end-to-end histories on a simulated network with a virtual clock"),
-    "C02": ("Worlds of 1..1000 omniscient scripted nodes (uniform / adversarially clustered ids), one real searcher; announce targets compared with the independently computed 8 XOR-closest nodes, per-announce field and token checks, multiset equality of the stream with all delivered answers' values.",
+    "C02": ("Worlds of 1..1000 omniscient scripted nodes (uniform / adversarially clustered ids) and worlds of 300..1500 nodes answering from Kademlia-like limited knowledge (multi-hop searches), one real searcher; announce targets compared with the independently computed 8 XOR-closest nodes (limited knowledge: closest among the nodes that answered), per-announce field and token checks, multiset equality of the stream with all delivered answers' values.",
             "Benign network as the property presupposes (every answer within 1 s, truthful closest-node lists).",
             "property-based testing (proptest) against an independent reference computation over the whole world"),
     "C03": ("Hostile networks: per-datagram drop/delay/duplicate tables, hostile node lists, 1..3 concurrent searches and an attacker injecting forged responses derived from observed transaction ids; provenance of every yielded address and every announce decided from the complete wire log.",
@@ -19,13 +19,13 @@ CHECKS = {
     "C04": ("Scripted contacts and chains of ever closer nodes answering around the 1.5 s timeout, errors, duplicates, silence, send failures, no-good-node and dead-node cases; virtual-time bounds on stream close in both directions.",
             "eps = 100 virtual ms; searches are issued on a bootstrapped node (C16 covers earlier ones).",
             "property-based testing (proptest) of answer/timeout schedules with virtual-time oracles"),
-    "C10": ("Per-contact event histories (answer, mention, query received, query sent, time steps around 15 min) on the real table against an independent status model after every event; wire stage: maintenance worlds with the event history extracted from the wire log.",
+    "C10": ("Per-contact event histories (answer, mention, query received, query sent, time steps around 15 min and up to 2^40 ms, one id under two addresses) on the real table against an independent status model after every event; wire stage: maintenance worlds with the event history extracted from the wire log.",
             "Exact 15-minute coincidences skipped; wire stage asserts only what is robust to the bootstrap initial round not counting as a query.",
             "model-based property testing (proptest histories vs. reference status model)"),
-    "C11": ("Hours-long runs (30 min..3 h, thorough 12 h) of a real node with 1..8 scripted contacts that always answer or fall silent at generated times, single-contact and well-connected regimes, with/without user searches; deadlines on samples of load_contacts() every 2 s and find_node probes every 30 s.",
+    "C11": ("Hours-long runs (30 min..3 h, thorough 12 h) of a real node with 1..8 scripted contacts that always answer or fall silent at generated times, single-contact and well-connected regimes, hearsay contacts with unsendable addresses, with/without user searches; deadlines on samples of load_contacts() every 2 s and find_node probes every 30 s.",
             "Loss-free, round trips < 400 ms, no bucket full; a query from a contact counts as sign of life like an answer; one known finding (transient loss while two queries are in flight) is matched by exact signature.",
             "property-based testing (proptest) of long histories with deadline oracles"),
-    "C12": ("Unsolicited queries and responses with foreign transaction ids (short, long, unused action id, real id plus extra bytes, truncated) injected at generated times into a node that is bootstrapping/idle/searching, hostile node lists in genuine answers; membership invariants on contacts, search results and find_node probe answers.",
+    "C12": ("Unsolicited queries and responses with foreign transaction ids (short, long, unused action id, real id plus extra bytes, truncated, real id with a foreign leading byte, a sweep of all never-transmitted action prefixes after the contacts aged) injected at generated times into a node that is bootstrapping/idle/searching, hostile node lists in genuine answers; membership invariants on contacts, search results and find_node probe answers.",
             "Forged action ids >= 2^20 are certainly unused in a short run.",
             "fault-injection property testing (proptest) with attributable unique markers"),
     "C05": ("One real node on a simulated datagram network receives generated sequences of well-formed queries (all kinds/argument combinations, tids 0..32 B incl. tids echoed from the node's own in-flight requests) interleaved with non-queries; per-datagram reply discipline is decided from the wire log with an independent codec; a second stage repeats the discipline on worlds with up to 500 stored peers and up to 180 table nodes.",
@@ -46,7 +46,7 @@ CHECKS = {
     "C13": ("Generated KRPC messages over the whole field space; canonical encoding by an independent codec; decode(canon)==model, decode(canon).encode()==canon, permuted/unknown-key variants decode equal, negative classes rejected; plus a libFuzzer round-trip target.",
             "Trusts the harness's own codec (self-checked on BEP5 examples); unknown keys are UTF-8 names outside BEP5/32.",
             "property-based testing (proptest) with round-trip/differential/metamorphic oracles + coverage-guided fuzzing (libFuzzer)"),
-    "C14": ("Structure-aware mutations of valid datagrams (length prefixes of every magnitude, integer edge texts, nesting to 1500 levels, truncation, type swaps, fields inflated to the datagram limit, ...) decoded in supervised worker processes on a 2 MiB stack under a counting allocator; datagram sequences injected into a live node followed by liveness checks; plus a libFuzzer decode target.",
+    "C14": ("Structure-aware mutations of valid datagrams (length prefixes of every magnitude, integer edge texts, nesting to 1500 levels, truncation, type swaps, fields inflated to the datagram limit, ...) decoded in supervised worker processes on a 2 MiB stack under a counting allocator; datagram sequences (optionally with every datagram delivered 2-3 times) injected into a live node followed by liveness checks; plus a libFuzzer decode target.",
             "Allocation bound 256 KiB single / 8 MiB total per input; opt-level 2 build with debug assertions; worker death attributed to the input in flight.",
             "structure-aware fuzzing / property-based testing (proptest mutators, supervised workers) + libFuzzer"),
     "C15": ("Generated builder configurations (routers/nodes overlap, up to 40 contacts, silent/error/garbage/unsendable contacts, busy event loop), outage patterns up to 2 h incl. flapping, and bootstrapped() callers at generated times; resolution-time bounds and API liveness under virtual time.",
@@ -61,7 +61,7 @@ CHECKS = {
     "C18": ("Runs of 10 min..2 h (thorough 12 h) of a real node with 1..20 contacts and outages; hook counters sampled every 2.5 virtual seconds; windowed rate bound over all sample pairs and at most one pending refresh check.",
             "Counters come from cfg(btdht_verif) hooks.",
             "property-based testing (proptest) of long histories with a windowed-rate invariant"),
-    "C19": ("Id streams through the 2^24 wrap and around the 2048-block edges, up to 6200 activity prefixes from one generator; wire stage checks tids of all queries in long runs.",
+    "C19": ("Id streams through the 2^24 wrap and around the 2048-block edges, up to 6200 activity prefixes from one generator; wire stage checks tids of all queries in long runs (incl. a contact listed in plain and IPv4-mapped spelling).",
             "The 2^40 action-id wrap is out of reach.",
             "property-based testing (proptest) with uniqueness/prefix invariants (bitset over 2^24 ids)"),
     "C20": ("Every one of the 2^20 IPv4 mask classes enumerated per sweep, random/edge IPv6 /64 prefixes, many draws of the internal randomness; oracle is an independent BEP42 validator.",
